@@ -409,6 +409,8 @@ func badProps() []rp.Prop {
 		rp.P[badCase]{Name: "malformed", Checks: ev.Pick(60000, 6000000) / ev.Shards(), Gen: genBad, Check: checkBad},
 		rp.P[aliasCase]{Name: "carry-alias", Checks: ev.Pick(20000, 2000000) / ev.Shards(), Gen: genAlias, Sweep: sweepAliases, Check: checkAlias},
 		rp.P[textPair]{Name: "colliding-pairs", Sweep: sweepTextPairs, Check: checkTextPair},
+		rp.P[concCase]{Name: "concurrent-dates", Checks: ev.Pick(80, 8000) / ev.Shards(), Gen: genConc, Sweep: sweepConc, Check: checkConc},
+		rp.P[acceptedCase]{Name: "accepted-text", Checks: ev.Pick(20000, 2000000) / ev.Shards(), Gen: genAccepted, Sweep: sweepAccepted, Check: checkAccepted},
 	}
 }
 
